@@ -494,6 +494,21 @@ impl MasterSim {
         self.pipe.push(&bytes);
     }
 
+    /// one application fragment cut into two transport segments, the first sent by `src_first`, the last by `src_last`
+    pub fn send_split_from(&mut self, src_first: u16, src_last: u16, fragment: &[u8]) {
+        let cut = (fragment.len() / 2).max(1);
+        let t0 = self.tseq & 0x3F;
+        let t1 = (t0 + 1) & 0x3F;
+        let mut s0 = vec![0x40 | t0];
+        s0.extend_from_slice(&fragment[..cut]);
+        let mut s1 = vec![0x80 | t1];
+        s1.extend_from_slice(&fragment[cut..]);
+        let mut bytes = rl::Frame::data(false, self.cfg.master_addr, src_first, &s0).encode();
+        bytes.extend(rl::Frame::data(false, self.cfg.master_addr, src_last, &s1).encode());
+        self.tseq = (t1 + 1) & 0x3F;
+        self.pipe.push(&bytes);
+    }
+
     pub fn send_bytes(&mut self, bytes: &[u8]) {
         self.pipe.push(bytes);
     }
